@@ -3,9 +3,12 @@ package sim
 import (
 	"fmt"
 	"math/big"
+	"sort"
 
+	disputekeeper "github.com/tellor-io/layer/x/dispute/keeper"
 	disputetypes "github.com/tellor-io/layer/x/dispute/types"
 
+	sdk "github.com/cosmos/cosmos-sdk/types"
 	stakingtypes "github.com/cosmos/cosmos-sdk/x/staking/types"
 )
 
@@ -20,10 +23,11 @@ type OracleC13 struct {
 	out     map[uint64]*big.Int            // root id -> everything paid out / burned so far
 	potPaid map[uint64]*big.Int            // root id -> voter rewards claimed
 	bad     map[uint64]bool                // root id -> ledger not reliable (several payments or executions in one block)
+	probed  map[string]int                 // once-only probes already run per (root, address)
 }
 
 func NewOracleC13(t *DisputeTracker) *OracleC13 {
-	return &OracleC13{counters: newCounters(), t: t, paid: map[uint64]map[string]*big.Int{}, escrow: map[uint64]*big.Int{}, out: map[uint64]*big.Int{}, potPaid: map[uint64]*big.Int{}, bad: map[uint64]bool{}}
+	return &OracleC13{counters: newCounters(), t: t, paid: map[uint64]map[string]*big.Int{}, escrow: map[uint64]*big.Int{}, out: map[uint64]*big.Int{}, potPaid: map[uint64]*big.Int{}, bad: map[uint64]bool{}, probed: map[string]int{}}
 }
 func (o *OracleC13) ID() string { return "C13" }
 
@@ -92,7 +96,8 @@ func (o *OracleC13) AfterBlock(c *Chain, b *BlockCtx) []*Violation {
 
 	// ---- executions of this block (BeginBlock): exactly once, flows by result
 	var execNow []DisputeInfo
-	for id, d := range o.t.cur {
+	for _, id := range o.t.ids() {
+		d := o.t.cur[id]
 		if o.t.execAt[id] == b.H {
 			execNow = append(execNow, d)
 		}
@@ -306,7 +311,8 @@ func (o *OracleC13) AfterBlock(c *Chain, b *BlockCtx) []*Violation {
 	}
 
 	// ---- conservation: once everybody has claimed, in = out + dust
-	for id, d := range o.t.cur {
+	for _, id := range o.t.ids() {
+		d := o.t.cur[id]
 		root := o.t.rootOf[id]
 		if root != id && len(d.D.PrevDisputeIds) > 0 && d.D.PrevDisputeIds[len(d.D.PrevDisputeIds)-1] != id {
 			continue
@@ -356,6 +362,135 @@ func (o *OracleC13) AfterBlock(c *Chain, b *BlockCtx) []*Violation {
 				cls += ":against"
 			}
 			out = append(out, o.v(b.H, "conservation", cls, "dispute %d (%s, %d rounds): %s was paid in (fees + escrowed stake), %s paid out or burned; %s remains although every party has claimed", id, d.V.VoteResult, d.D.DisputeRound, in, o.out[root], residual))
+		}
+	}
+	if len(out) == 0 {
+		out = append(out, o.onceProbes(c, b, v)...)
+	}
+	return out
+}
+
+// onceProbes: on a cache context (nothing is written back) every party of an executed dispute claims
+// again and again — under every round id of the dispute — and may be paid at most once.
+func (o *OracleC13) onceProbes(c *Chain, b *BlockCtx, v *View) []*Violation {
+	var out []*Violation
+	app := b.Ref.App
+	dms := disputekeeper.NewMsgServerImpl(app.DisputeKeeper)
+	rounds := map[uint64][]uint64{} // root -> round ids
+	executed := map[uint64]bool{}
+	for _, id := range o.t.ids() {
+		d := o.t.cur[id]
+		root := o.t.rootOf[id]
+		rounds[root] = append(rounds[root], id)
+		if d.V != nil && d.V.Executed {
+			executed[root] = true
+		}
+	}
+	if len(executed) == 0 {
+		return nil
+	}
+	voters := v.Voters()
+	payers := v.FeePayers()
+	for root := range executed {
+		ids := append([]uint64(nil), rounds[root]...)
+		sort.Slice(ids, func(i, j int) bool { return ids[i] < ids[j] })
+		seen := map[string]bool{}
+		for _, vr := range voters {
+			if o.t.rootOf[vr.ID] != root || seen[string(vr.Voter)] {
+				continue
+			}
+			seen[string(vr.Voter)] = true
+			key := fmt.Sprintf("v|%d|%s", root, string(vr.Voter))
+			if o.probed[key] >= 2 {
+				continue
+			}
+			o.probed[key]++
+			cctx, _ := v.ctx.CacheContext()
+			paidTimes := 0
+			total := new(big.Int)
+			for rep := 0; rep < 2; rep++ {
+				for _, id := range ids {
+					before := app.BankKeeper.GetBalance(cctx, vr.Voter, Denom).Amount
+					err := probeMsg(cctx, func(x sdk.Context) error {
+						_, e := dms.ClaimReward(x, &disputetypes.MsgClaimReward{CallerAddress: vr.Voter.String(), DisputeId: id})
+						return e
+					})
+					o.count("probe_claim_reward_calls")
+					if err != nil {
+						continue
+					}
+					got := app.BankKeeper.GetBalance(cctx, vr.Voter, Denom).Amount.Sub(before)
+					if got.IsPositive() {
+						paidTimes++
+						total.Add(total, got.BigInt())
+					}
+				}
+			}
+			if paidTimes > 1 {
+				out = append(out, o.v(b.H, "once-probe", "reward-claimable-more-than-once", "voter %s of dispute %d (rounds %v) can claim its voting reward %d times in a row (%s in total) on the state after block %d", vr.Voter, root, ids, paidTimes, total, b.H))
+				return out
+			}
+		}
+		seenP := map[string]bool{}
+		for _, p := range payers {
+			if o.t.rootOf[p.ID] != root || seenP[string(p.Payer)] {
+				continue
+			}
+			seenP[string(p.Payer)] = true
+			key := fmt.Sprintf("p|%d|%s", root, string(p.Payer))
+			if o.probed[key] >= 2 {
+				continue
+			}
+			o.probed[key]++
+			cctx, _ := v.ctx.CacheContext()
+			paidTimes := 0
+			total := new(big.Int)
+			for rep := 0; rep < 2; rep++ {
+				for _, id := range ids {
+					cv := &View{c: v.c, n: v.n, ctx: cctx}
+					before := new(big.Int).Add(holdings(cv, p.Payer), cv.Balance(p.Payer).BigInt())
+					err := probeMsg(cctx, func(x sdk.Context) error {
+						_, e := dms.WithdrawFeeRefund(x, &disputetypes.MsgWithdrawFeeRefund{CallerAddress: p.Payer.String(), PayerAddress: p.Payer.String(), Id: id})
+						return e
+					})
+					o.count("probe_fee_refund_calls")
+					if err != nil {
+						continue
+					}
+					got := new(big.Int).Sub(new(big.Int).Add(holdings(cv, p.Payer), cv.Balance(p.Payer).BigInt()), before)
+					if got.Sign() > 0 {
+						paidTimes++
+						total.Add(total, got)
+					}
+				}
+			}
+			// entitlement: a payer record of an executed dispute that did not end against the disputer can be withdrawn
+			if d, ok := o.t.cur[p.ID]; ok && d.V != nil && d.V.Executed && d.D.DisputeStatus == disputetypes.Resolved {
+				switch d.V.VoteResult {
+				case disputetypes.VoteResult_INVALID, disputetypes.VoteResult_NO_QUORUM_MAJORITY_INVALID, disputetypes.VoteResult_SUPPORT, disputetypes.VoteResult_NO_QUORUM_MAJORITY_SUPPORT:
+					fresh, _ := v.ctx.CacheContext()
+					err := probeMsg(fresh, func(x sdk.Context) error {
+						_, e := dms.WithdrawFeeRefund(x, &disputetypes.MsgWithdrawFeeRefund{CallerAddress: p.Payer.String(), PayerAddress: p.Payer.String(), Id: p.ID})
+						return e
+					})
+					o.count("probe_fee_refund_entitlement")
+					if err != nil {
+						cls := "refund-unavailable"
+						if p.Info.FromBond {
+							cls += ":paid-from-stake"
+						}
+						if d.D.DisputeRound > 1 {
+							cls += ":multi-round"
+						}
+						out = append(out, o.v(b.H, "entitlement-probe", cls, "payer %s holds a payer record (%s, from stake: %v) of dispute %d (%s, executed, round %d) but WithdrawFeeRefund fails: %s", p.Payer, p.Info.Amount, p.Info.FromBond, p.ID, d.V.VoteResult, d.D.DisputeRound, truncate(err.Error(), 200)))
+						return out
+					}
+				}
+			}
+			if paidTimes > 1 {
+				out = append(out, o.v(b.H, "once-probe", "refund-claimable-more-than-once", "payer %s of dispute %d (rounds %v) can withdraw its fee refund %d times in a row (%s in total) on the state after block %d", p.Payer, root, ids, paidTimes, total, b.H))
+				return out
+			}
 		}
 	}
 	return out
@@ -417,7 +552,8 @@ func (o *OracleC13) ledgerOK(root uint64) bool {
 		return false
 	}
 	var latest *DisputeInfo
-	for id, d := range o.t.cur {
+	for _, id := range o.t.ids() {
+		d := o.t.cur[id]
 		if o.t.rootOf[id] == root && (latest == nil || d.D.DisputeId > latest.D.DisputeId) {
 			dd := d
 			latest = &dd
